@@ -11,6 +11,11 @@ lean/PersimVerif/Generated/KernelConsts.lean  containing, as exact `Rat` literal
     (function, left operand as source text, operator, literal), in source order;
   * every numeric literal of `uniform`, `norm_cdf`, `sbvn_cdf`, `bvn_cdf`, in source order
     (this is what pins 4.0/8.0, 12.0/16.0, 5.0, 3.0, 2.0*pi … of Genz's expansion);
+  * the EXPRESSION STRUCTURE of `bvn_cdf` and `gauss_legendre_quad`: the text of each function (decorators, `def` line, every
+    statement as `ast.unparse` prints it; the docstring dropped, the long numeric tables -- pinned digit by digit above --
+    written `[...]`), line by line, compared with the reviewed text EXPECTED_STRUCTURE below.  The digits say which numbers
+    occur; this says how they are combined (`np.maximum(dh, dk)`, `(1.0 - x)` / `(1.0 + x)`, `return (lg, w, x)`, …);
+  * the module-level bindings of the names those two functions use (`np`, `norm_cdf`, `gauss_legendre_quad`, `abs`, `len`);
 
 together with the proof obligations (all discharged by kernel evaluation over `Rat`, `decide +kernel`; no Mathlib):
 counts match `lg`; weights sum to 1 within 1e-15; nodes strictly inside (0,1) and strictly decreasing; the
@@ -21,10 +26,14 @@ ones in the hand-written model (PersimVerif/Model/Kernels.lean: gl3/gl6/gl10, th
 the comparisons equal Genz's (0.3, 0.75, 0.925, -100 three times, with their operators and operands).
 
 The file is rewritten on every run (check.py calls `pre_build`); on an unchanged source tree the output is
-byte-identical.  A changed digit, threshold, operator or literal in the source makes an obligation fail to build.
+byte-identical.  A changed digit, threshold, operator or literal in the source makes an obligation fail to build, and so
+does any other edit of a statement of `bvn_cdf` / `gauss_legendre_quad` (`structure_*`), harmless or not.  The structure
+obligations pin the TEXT only: that Genz's expansion as written is accurate is C13's [T] part, not a theorem.
 """
-import ast, os
+import ast, copy, os
 from fractions import Fraction
+
+from .py2lean import lean_str, file_bindings
 
 FILE = os.path.join("persim", "images_kernels.py")
 OUT = os.path.join("PersimVerif", "Generated", "KernelConsts.lean")
@@ -59,6 +68,96 @@ EXPECTED_LITERALS = {
                "0 0 0",                                # r > 0, r < 0, maximum(0, …)
 }
 EXPECTED_LG = [3, 6, 10]
+# how the constants are combined: the reviewed text of the two functions (see `structure`); Genz's bvnl.m, Drezner-Wesolowsky
+EXPECTED_STRUCTURE = {
+    'gauss_legendre_quad': """
+def gauss_legendre_quad(r):
+    if np.abs(r) < 0.3:
+        lg = 3
+        w = np.array([...])
+        x = np.array([...])
+    elif np.abs(r) < 0.75:
+        lg = 6
+        w = np.array([...])
+        x = np.array([...])
+    else:
+        lg = 10
+        w = np.array([...])
+        x = np.array([...])
+    return (lg, w, x)
+""",
+    'bvn_cdf': """
+def bvn_cdf(x, y, mu_x=0.0, mu_y=0.0, sigma_xx=1.0, sigma_yy=1.0, sigma_xy=0.0):
+    dh = -(x - mu_x) / np.sqrt(sigma_xx)
+    dk = -(y - mu_y) / np.sqrt(sigma_yy)
+    hk = np.multiply(dh, dk)
+    r = sigma_xy / np.sqrt(sigma_xx * sigma_yy)
+    lg, w, x = gauss_legendre_quad(r)
+    dim1 = np.ones((len(dh),), dtype=np.float64)
+    dim2 = np.ones((lg,), dtype=np.float64)
+    bvn = np.zeros((len(dh),), dtype=np.float64)
+    if abs(r) < 0.925:
+        hs = (np.multiply(dh, dh) + np.multiply(dk, dk)) / 2.0
+        asr = np.arcsin(r)
+        sn1 = np.sin(asr * (1.0 - x) / 2.0)
+        sn2 = np.sin(asr * (1.0 + x) / 2.0)
+        dim1w = np.outer(dim1, w)
+        hkdim2 = np.outer(hk, dim2)
+        hsdim2 = np.outer(hs, dim2)
+        dim1sn1 = np.outer(dim1, sn1)
+        dim1sn2 = np.outer(dim1, sn2)
+        sn12 = np.multiply(sn1, sn1)
+        sn22 = np.multiply(sn2, sn2)
+        bvn = asr * np.sum(np.multiply(dim1w, np.exp(np.divide(np.multiply(dim1sn1, hkdim2) - hsdim2, 1 - np.outer(dim1, sn12)))) + np.multiply(dim1w, np.exp(np.divide(np.multiply(dim1sn2, hkdim2) - hsdim2, 1 - np.outer(dim1, sn22)))), axis=1) / (4 * np.pi) + np.multiply(norm_cdf(-dh), norm_cdf(-dk))
+    else:
+        if r < 0:
+            dk = -dk
+            hk = -hk
+        if abs(r) < 1:
+            opmr = (1.0 - r) * (1.0 + r)
+            sopmr = np.sqrt(opmr)
+            xmy2 = np.multiply(dh - dk, dh - dk)
+            xmy = np.sqrt(xmy2)
+            rhk8 = (4.0 - hk) / 8.0
+            rhk16 = (12.0 - hk) / 16.0
+            asr = -1.0 * (np.divide(xmy2, opmr) + hk) / 2.0
+            ind = asr > -100
+            bvn[ind] = sopmr * np.multiply(np.exp(asr[ind]), 1.0 - np.multiply(np.multiply(rhk8[ind], xmy2[ind] - opmr), (1.0 - np.multiply(rhk16[ind], xmy2[ind]) / 5.0) / 3.0) + np.multiply(rhk8[ind], rhk16[ind]) * opmr * opmr / 5.0)
+            ind = hk > -100
+            ncdfxmyt = np.sqrt(2.0 * np.pi) * norm_cdf(-xmy / sopmr)
+            bvn[ind] = bvn[ind] - np.multiply(np.multiply(np.multiply(np.exp(-hk[ind] / 2.0), ncdfxmyt[ind]), xmy[ind]), 1.0 - np.multiply(np.multiply(rhk8[ind], xmy2[ind]), (1.0 - np.multiply(rhk16[ind], xmy2[ind]) / 5.0) / 3.0))
+            sopmr = sopmr / 2
+            for ix in [-1, 1]:
+                xs = np.multiply(sopmr + sopmr * ix * x, sopmr + sopmr * ix * x)
+                rs = np.sqrt(1 - xs)
+                xmy2dim2 = np.outer(xmy2, dim2)
+                dim1xs = np.outer(dim1, xs)
+                dim1rs = np.outer(dim1, rs)
+                dim1w = np.outer(dim1, w)
+                rhk16dim2 = np.outer(rhk16, dim2)
+                hkdim2 = np.outer(hk, dim2)
+                asr1 = -1.0 * (np.divide(xmy2dim2, dim1xs) + hkdim2) / 2.0
+                ind1 = asr1 > -100
+                cdim2 = np.outer(rhk8, dim2)
+                sp1 = 1.0 + np.multiply(np.multiply(cdim2, dim1xs), 1.0 + np.multiply(rhk16dim2, dim1xs))
+                ep1 = np.divide(np.exp(np.multiply(np.divide(-np.multiply(hkdim2, 1.0 - dim1rs), 2.0 * (1.0 + dim1rs)), ind1)), dim1rs)
+                bvn = bvn + np.sum(np.multiply(np.multiply(np.multiply(sopmr, dim1w), np.exp(np.multiply(asr1, ind1))), np.multiply(ep1, ind1) - np.multiply(sp1, ind1)), axis=1)
+            bvn = -bvn / (2.0 * np.pi)
+        if r > 0:
+            bvn = bvn + norm_cdf(-np.maximum(dh, dk))
+        elif r < 0:
+            bvn = -bvn + np.maximum(0, norm_cdf(-dh) - norm_cdf(-dk))
+    return bvn
+""",
+}
+EXPECTED_BINDINGS = [
+    ('abs', 'builtin'),
+    ('bvn_cdf', 'def bvn_cdf'),
+    ('gauss_legendre_quad', 'def gauss_legendre_quad'),
+    ('len', 'builtin'),
+    ('norm_cdf', 'def norm_cdf'),
+    ('np', 'import numpy as np'),
+]
 EXPECTED_THRESHOLDS = ["0.3", "0.75"]
 
 
@@ -171,6 +270,31 @@ def gl_chain(src, fn):
         return chain
 
 
+def structure(fn):
+    """lines of the function as `ast.unparse` prints it: decorators and `def` line kept, docstring dropped, every list of
+    three or more numeric literals (the quadrature tables, pinned digit by digit elsewhere) written `[...]`"""
+    fn = copy.deepcopy(fn)
+    if fn.body and isinstance(fn.body[0], ast.Expr) and isinstance(fn.body[0].value, ast.Constant) \
+            and isinstance(fn.body[0].value.value, str):
+        fn.body = fn.body[1:] or [ast.Pass()]
+
+    def num(e):
+        while isinstance(e, ast.UnaryOp) and isinstance(e.op, (ast.USub, ast.UAdd)):
+            e = e.operand
+        return isinstance(e, ast.Constant) and isinstance(e.value, (int, float)) and not isinstance(e.value, bool)
+
+    class R(ast.NodeTransformer):
+        def visit_List(self, node):
+            self.generic_visit(node)
+            if len(node.elts) >= 3 and all(num(e) for e in node.elts):
+                return ast.List(elts=[ast.Constant(Ellipsis)], ctx=ast.Load())
+            return node
+    return ast.unparse(ast.fix_missing_locations(R().visit(fn))).split("\n")
+
+
+STRUCTURE_FUNCS = ("gauss_legendre_quad", "bvn_cdf")
+
+
 def extract(root):
     path = os.path.join(root, FILE)
     src = open(path).read()
@@ -183,6 +307,8 @@ def extract(root):
         "chain": gl_chain(src, fns["gauss_legendre_quad"]),
         "compares": compares(src, fns),
         "literals": {f: literals(src, fns[f]) for f in EXPECTED_LITERALS},
+        "structure": {f: structure(fns[f]) for f in STRUCTURE_FUNCS},
+        "bindings": file_bindings(tree, [(f, fns[f], None) for f in STRUCTURE_FUNCS]),
     }
 
 
@@ -205,6 +331,14 @@ def rat(q):
 
 def rats(qs, indent="   "):
     return "[" + (",\n" + indent).join(rat(q) for q in qs) + "]"
+
+
+def strs(lines, indent="   "):
+    return "[" + (",\n" + indent).join(lean_str(l) for l in lines) + "]"
+
+
+def pairs(es, indent="   "):
+    return "[" + (",\n" + indent).join("(%s, %s)" % (lean_str(a), lean_str(b)) for a, b in es) + "]"
 
 
 def cmp_list(cs):
@@ -302,6 +436,11 @@ def render(ex, err=None):
         o.append("/-- numeric literals of `%s` in source order (unary minus folded, defaults included) -/" % f)
         o.append("def srcLiterals_%s : List Rat :=\n  %s\n" % (f, rats(ex["literals"][f])))
 
+    for f in STRUCTURE_FUNCS:
+        o.append("/-- `%s` as `ast.unparse` prints it, line by line (docstring dropped, numeric tables written `[...]`) -/" % f)
+        o.append("def srcStructure_%s : List String :=\n  %s\n" % (f, strs(ex["structure"][f])))
+    o.append("/-- module-level bindings of the names `gauss_legendre_quad` and `bvn_cdf` use (they are resolved by spelling) -/")
+    o.append("def srcKernelBindings : List (String × String) :=\n  %s\n" % pairs(ex["bindings"]))
     o.append("/-! ### obligations -/\n")
     o.append("theorem source_shape_recognised : sourceShapeRecognised = true := by decide\n")
     o.append("/-- three rules, chosen by `|r| < 0.3`, `|r| < 0.75`, otherwise -/")
@@ -331,6 +470,14 @@ def render(ex, err=None):
     for f, want in EXPECTED_LITERALS.items():
         o.append("theorem literals_%s : srcLiterals_%s =\n  %s := by decide +kernel\n"
                  % (f, f, rats([Fraction(t) for t in want.split()])))
+    o.append("/-! every statement of `gauss_legendre_quad` / `bvn_cdf` is, as text, the one this check was reviewed against: how the\n"
+             "quadrature nodes, weights and thresholds pinned above are COMBINED (no claim that the combination is accurate: that is\n"
+             "C13's tested part).  (No doc comment directly above these theorems: a failing `rfl` is reported at the first line of\n"
+             "the declaration, which must be the `theorem` line for the harness to name it.) -/\n")
+    for f in STRUCTURE_FUNCS:
+        o.append("theorem structure_%s : srcStructure_%s =\n  %s := rfl\n"
+                 % (f, f, strs(EXPECTED_STRUCTURE[f].strip("\n").split("\n"))))
+    o.append("theorem kernel_bindings : srcKernelBindings =\n  %s := rfl\n" % pairs(EXPECTED_BINDINGS))
     o.append("end PersimVerif.C13.Consts\n")
     return "\n".join(o)
 
